@@ -539,10 +539,8 @@ def gen_histories(spec, tmpdir):
             # manager started on an unlocked device with the change pending; link fault,
             # device back in the bootloader: the repair performs the change
             for lk in ("read_error", "write_error"):
-                if platform == "sgx":
-                    # socket errors are not classified as link failures by
-                    # HSM2Dongle._send_command: no repair is ever pending on SGX
-                    continue
+                # (on SGX the link failure comes in the shapes the dongle layer classifies:
+                # run_step sets tcp_faults_as_hid)
                 cases.append({"platform": platform, "start": start, "steps": [
                     {"platform": platform, "force": force, "running": lk},
                     {"platform": platform}]})
